@@ -44,7 +44,7 @@ CLAIMED = {
     design='6 C09'),
  'C10': dict(
     text='Theorems: the result set is determined by the set of glob forms of the unfolded searches on any data set, results of concatenated search lists are unions, comma alternatives unfold to the cartesian product, no duplicates; and, from the C07 denotation, for the list-backed finder and every configuration passing unfold_conf_okb: a search returns exactly the entries glob-matched by a typed search it denotes, and the five rewrite rules (comma list = union of alternatives, alias = union of members, "**" = union over n levels restricted to leaf types, filter k=v = the results whose field k is v, literal = the subset with that value) hold as set equalities under explicit decidable guards, each instantiated on the live configuration on every run. The five rules are also checked as result-set equalities on the implementation (pairs of searches over generated universes) on FindInList (both constructor modes), FindInPaths and FindInAll over real trees, and by correspondence.',
-    note=TB + 'Guards of the rule theorems: plain search strings, url-safe filter values, no ">" (sorted search), narrowing keeps the string of a typed non-search Sid (shortcut_okb), the list finder does not re-type entries (lit_ok / filt_okb). On the tree finders the rules are oracle-checked and follow for star searches from the C11 equality theorem.',
+    note=TB + 'Guards of the rule theorems: plain search strings, url-safe filter values, no ">" (sorted search), narrowing keeps the string of a typed non-search Sid (shortcut_okb), the list finder does not re-type entries (lit_ok / filt_okb). The same denotation theorem and the five rules are proved for FindInPaths over a data set materialised as a tree (tree_guard) and for FindInAll when every typed search is routed to the path finder (all_guard); levels served by constants and searches outside the guards are oracle-checked.',
     technique='Coq proof (rules derived from the denotation refinement of C07 + glob relation of C08) + rewrite-pair oracle on three finders + correspondence',
     design='6 C10'),
  'C12': dict(
@@ -78,13 +78,13 @@ CLAIMED = {
     technique='Coq proof (path pattern globs the path of every matching entity + round trip -> tree search = list search; junk invariance) + finder-agreement oracle on real trees + correspondence',
     design='6 C11'),
  'C15': dict(
-    text='Theorems over the file-system / writer / getter model: create of an existing entity and update of a missing one (or of a Sid without path) raise SpilException (no new state); a read after a write is the overlay of previous data and written values; a write touches only the sidecar of the written entity, so reads of entities with another sidecar are unchanged; paths differing only by the extension share a sidecar; "exists exactly from the moment it or a descendant was created" as an invariant by induction over histories of creations from the empty tree (dataset_ok kept by every successful creation passing the decidable guard create_guardb; exists() after any history is true exactly for the created Sids and their ancestors that have a path). Tie: all histories of <= 2 (thorough 3) operations over a reduced alphabet + random histories, each from an empty real tree, with tree-to-model comparison after every history and a direct oracle (overlay, exists after create of self or descendant).',
+    text='Theorems over the file-system / writer / getter model: create of an existing entity and update of a missing one (or of a Sid without path) raise SpilException (no new state); a read after a write is the overlay of previous data and written values; a write touches only the sidecar of the written entity, so reads of entities with another sidecar are unchanged; paths differing only by the extension share a sidecar; "exists exactly from the moment it or a descendant was created" as an invariant by induction over histories of creations from the empty tree (dataset_ok kept by every successful creation passing the decidable guard create_guardb; exists() after any history is true exactly for the created Sids and their ancestors that have a path); the data loaded after ANY history of create / update / set is the overlay, in call order, of the successful writes to that sidecar (only guard: distinct keys per written dictionary), with frame, isolation ("differs by more than the extension": sidecar injectivity) and blocked-sidecar theorems. Tie: all histories of <= 2 (thorough 3) operations over a reduced alphabet + random histories, each from an empty real tree, with tree-to-model comparison after every history and a direct oracle (overlay, exists after create of self or descendant).',
     note=TB + 'The history invariant covers creations without data at levels served by the path finder (a sidecar is a hidden file that resolves to a Sid at a level with a free value); the rest of existence-through-search is correspondence + oracle. A new process is not separately started per read (the writer and getter hold no state; sampled by the C13 fresh-process mechanism).',
     technique='Coq proof + exhaustive short histories / random histories against a real tree',
     design='6 C15'),
  'C16': dict(
-    text='Theorems: GetFromPaths.get is the map of get_data over the Sids its finder finds (same length, same order); with attributes the record has exactly those keys; the "sid" key carries the encoder result and is untouched when the encoder returns None; types without Getter yield nothing without failing. Tie: get vs find vs get_data in one implementation process (order), model correspondence as multisets, three encoders, attribute subsets.',
-    note=TB + 'GetFromAll builds a new Getter per typed search in the demo configuration (records are concatenated per typed search); modelled as such.',
+    text='Theorems: GetFromPaths.get is the map of get_data over the Sids its finder finds (same length, same order); with attributes the record has exactly those keys; the "sid" key carries the encoder result and is untouched when the encoder returns None; types without Getter yield nothing without failing; pointwise form of the first sentence for every tree and over data sets, the records after any history of create / update / set (overlay of C15), GetFromAll.get = GetFromPaths.get when every typed search is routed to one path Getter (failures included), get_data / get_attr as the record of the Sid and one value of it. Tie: get vs find vs get_data in one implementation process (order), model correspondence as multisets, three encoders, attribute subsets.',
+    note=TB + 'GetFromAll groups the typed searches by Getter (the Getters are built once per config since the repair of D30) and hands each group to one do_get; modelled as such (group_by_getter).',
     technique='Coq proof + correspondence + get/find oracle',
     design='6 C16'),
  'C17': dict(
